@@ -231,9 +231,11 @@ def insertSorted (less : Update → Update → Bool) (u : Update) : List Update 
   | [] => [u]
   | v :: vs => if less u v then u :: v :: vs else v :: insertSorted less u vs
 
-/-- a stable sort w.r.t. `less` (the sorted permutation is unique when `less` is total on the list) -/
+/-- a stable sort w.r.t. `less` (`sort.Stable`): elements are inserted in list order, each after the elements that
+    do not sort after it, so elements that compare as equal keep their order (and the sorted permutation is unique
+    when `less` is total on the list) -/
 def sortBy (less : Update → Update → Bool) (l : List Update) : List Update :=
-  l.foldr (insertSorted less) []
+  l.foldl (fun acc u => insertSorted less u acc) []
 
 def sortByIndex (l : List Update) : List Update := sortBy (keyLess OsmVerif.Gen.Update.sortIndexKeys) l
 
